@@ -111,8 +111,10 @@ def _e2e(case, rec, rng):
     dm = gen.psd_dm(mol, rng, 1)
     nr, er, vr = gen.nr_eval(ksr, dm)
     nu, eu, vu = gen.nr_eval(ksu, np.stack([dm / 2, dm / 2]))
-    escale = max(abs(er), 1e-3)
-    vscale = max(float(np.max(np.abs(vr))), 1e-3)
+    # natural scales: |E_xc| is 0.5-1 Ha per electron; a model whose parts nearly cancel (|E| = 0.011 Ha observed, thorough
+    # tier) must not turn the 1e-10 Ha regulariser floor into a relative 2e-8 (false alarm corrected)
+    escale = max(abs(er), 0.02 * mol.nelectron)
+    vscale = max(float(np.max(np.abs(vr))), 0.02)
     rec.check("e2e_rks_vs_uks_energy", abs(er - eu) / escale, TOL, mechanism="rks!=uks:energy[%s]" % tagm,
               detail={"E_rks": float(er), "E_uks": float(eu)})
     rec.check("e2e_rks_vs_uks_vmat", max(np.max(np.abs(vu[0] - vr)), np.max(np.abs(vu[1] - vr))) / vscale, TOL,
@@ -135,17 +137,17 @@ def _e2e(case, rec, rng):
     n1, e1, v1 = gen.nr_eval(ksu, dmu)
     n2, e2, v2 = gen.nr_eval(ksu, dmu[::-1].copy())
     rec.require("e2e_finite", np.all(np.isfinite(v1)) and np.isfinite(e1), mechanism="uks:nonfinite[%s]" % tagm)
-    rec.check("e2e_swap_energy", abs(e1 - e2) / max(abs(e1), 1e-3), TOL, mechanism="spin-swap:energy[%s]" % tagm,
+    rec.check("e2e_swap_energy", abs(e1 - e2) / max(abs(e1), 0.02 * mol.nelectron), TOL, mechanism="spin-swap:energy[%s]" % tagm,
               detail={"E_ab": float(e1), "E_ba": float(e2)})
     v1 = np.asarray(v1)
     v2 = np.asarray(v2)
     if np.any(dmu[1]):
-        dswap = np.max(np.abs(v1 - v2[::-1])) / max(float(np.max(np.abs(v1))), 1e-3)
+        dswap = np.max(np.abs(v1 - v2[::-1])) / max(float(np.max(np.abs(v1))), 0.02)
     else:
         # Fully polarised: the potential of the exactly empty channel is ill-conditioned for POL-mode NLDF models
         # (measured: a 1e-13 relative change of dm moves it by 4e-3 relative; cutoff-clamped 1/rho^n factors), so
         # only the occupied channel is decided; the empty channel is recorded and must be finite.
-        dswap = np.max(np.abs(v1[0] - v2[1])) / max(float(np.max(np.abs(v1[0]))), 1e-3)
+        dswap = np.max(np.abs(v1[0] - v2[1])) / max(float(np.max(np.abs(v1[0]))), 0.02)
         rec.note("empty_channel_swap_asymmetry", float(np.max(np.abs(v1[1] - v2[0])) / max(float(np.max(np.abs(v1[1]))), 1e-300)))
     rec.check("e2e_swap_vmat", dswap, TOL, mechanism="spin-swap:vmat[%s]" % tagm)
     nontrivial_swap = abs(np.max(np.abs(v1[0] - v1[1]))) > 1e-6 * max(1.0, float(np.max(np.abs(v1[0]))))
@@ -157,9 +159,9 @@ def _e2e(case, rec, rng):
             nb_, eb, vb = gen.nr_eval(ksr, 2 * dmu[1])
         else:
             eb, vb = 0.0, None
-        rec.check("e2e_separability_energy", abs(e1 - 0.5 * (ea + eb)) / max(abs(e1), 1e-3), TOL,
+        rec.check("e2e_separability_energy", abs(e1 - 0.5 * (ea + eb)) / max(abs(e1), 0.02 * mol.nelectron), TOL,
                   mechanism="separability:energy[%s]" % tagm, detail={"E_ab": float(e1), "E_2a": float(ea), "E_2b": float(eb)})
-        rec.check("e2e_separability_vmat", np.max(np.abs(v1[0] - va)) / max(float(np.max(np.abs(va))), 1e-3), TOL,
+        rec.check("e2e_separability_vmat", np.max(np.abs(v1[0] - va)) / max(float(np.max(np.abs(va))), 0.02), TOL,
                   mechanism="separability:vmat[%s]" % tagm)
         rec.tag("separability", "checked")
     # non-triviality: a wrong spin scaling would be visible
